@@ -43,6 +43,11 @@ def decodeTopic (f : String) : Topic :=
   let cs := if cs.head? = some '/' then cs.drop 1 else cs
   String.ofList cs.dropLast
 
+/-- a prefix subscription `/a/` also matches the frame of topic `a/b`: a message whose topic was not asked for by
+an explicit subscription is treated like a heartbeat (its id and topic list count, its payload is dropped) -/
+def effTopic (subAll : Bool) (subs : List (Topic × Topic)) (t : Topic) : Topic :=
+  if t ≠ "" ∧ subAll = false ∧ subs.all (fun p => p.1 != t) then "" else t
+
 /-- a stored frame: what ends up in the returned dict -/
 structure Msg where
   mid   : Int
@@ -190,7 +195,7 @@ def onTake (st : St) (i : Nat) : St × List Out × Bool :=
       let s := { s0 with queue := q, conn := true }
       if w.mid ≤ OF.Facts.MSG_ID_SPECIAL then takeSpecial st i s w
       else
-        let m : Msg := { mid := w.mid, topic := decodeTopic w.frame0, body := w.body, src := i }
+        let m : Msg := { mid := w.mid, topic := effTopic s0.subAll s0.subs (decodeTopic w.frame0), body := w.body, src := i }
         if s.eph ≠ 0 then takeEph st i s m w.topics else takeSync st i s m w.topics
 
 /-- the three flags of the return condition, scanning sources in order with the `break`s -/
